@@ -54,8 +54,21 @@ PACKAGES['vfq_c2'] = {'types': [gen.stype('pr', [gen.key('kq', 'vf.dtsupport.Sho
 # application schema): importing it is refused, and nothing of it may survive the refusal
 PACKAGES['vfq_bad'] = {'types': [gen.stype('px', [gen.key('kx')], implements='aa'),
                                  gen.stype('ta', [gen.key('ka')])], 'broken': True}
+# a component that defines a type NAMED like vfq_a's implementer 'pa' but without 'implements'
+PACKAGES['vfq_a2'] = {'types': [gen.stype('pa', [gen.key('ka')])]}
 # a component that names a stock datatype by its dotted path
 PACKAGES['vfq_dt'] = {'types': [gen.stype('pd', [gen.key('kd', 'ZConfig.datatypes.integer', default='1')], implements='aa')]}
+# a package split into two files the way the shipped logger component is: the application schema imports
+# only 'abstract.xml' (the abstract type), a configuration %import-s the package (its component.xml with
+# the implementer)
+PACKAGES['vfq_s'] = {'types': [('abstract', 'ax'), gen.stype('ps', [gen.key('kp')], implements='ax')],
+                     'no_render': [0],
+                     'raw_imports': ['<import package="vfq_s" file="abstract.xml"/>'],
+                     'files': {'abstract.xml': '<component>\n  <abstracttype name="ax"/>\n</component>\n'}}
+SCH2 = gen.schema(types=[('abstract', 'ax'), gen.stype('tx', [gen.key('kx')], implements='ax')],
+                  items=[gen.multisection('ax', '*', attr='ys'), gen.key('kz')])
+XML2 = gen.render(SCH2).replace('  <abstracttype name="ax"/>\n', '  <import package="vfq_s" file="abstract.xml"/>\n')
+VIEW2 = gen.View(SCH2)
 _PK = {}
 
 
@@ -69,7 +82,12 @@ def ensure_packages():
             os.makedirs(os.path.join(d, name))
             open(os.path.join(d, name, '__init__.py'), 'w').write('')
             body = ''.join('  <import package="%s"/>\n' % x for x in comp.get('imports', ()))
-            for t in comp['types']:
+            body += ''.join('  %s\n' % x for x in comp.get('raw_imports', ()))
+            for fn, text in comp.get('files', {}).items():
+                open(os.path.join(d, name, fn), 'w').write(text)
+            for ti, t in enumerate(comp['types']):
+                if ti in comp.get('no_render', ()):
+                    continue          # comes from one of the package's other files
                 if isinstance(t, tuple):
                     body += '  <abstracttype name="%s"/>\n' % t[1]
                 else:
@@ -108,14 +126,21 @@ LOADS = {
     # a load with a pending override for a later section while sections of imported types start
     'ovr': ['%import vfq_a', ['<', W('t'), '/>'], '<tb zz>', '</tb>', ['<', W('u'), ' nn/>']],
     'ovr-imported': ['%import vfq_a', ['<', W('t'), ' nn>'], ['</', ['=', 't'], '>'], '<tb/>'],
+    'c-import-a2': ['%import vfq_a2', '<pa/>'],
     'c-import-broken': ['%import vfq_bad'],
     'broken-then-use': ['%import vfq_bad', ['<', W('t'), '/>']],
     # an %include after an %import: the fragment (and what follows it) still sees the imported types
+    # (against the second schema, which imports only a part of package vfq_s)
+    'alt-import-use': ['%import vfq_s', ['<', W('t'), '/>'], ['<', W('u'), ' nn/>']],
+    'alt-use-before': [['<', W('t'), '/>'], '%import vfq_s', '<ps/>'],
     'import-include': ['%import vfq_a', '%include inc.conf', ['<', W('t'), '/>']],
     'import-include-2': ['<ta/>', '%import vfq_b', '<tb>', '%include inc2.conf', '</tb>', ['<', W('t'), ' sa/>']],
 }
 INCLUDED = {'inc.conf': [['<', W('u'), ' nn/>']], 'inc2.conf': ['kb 1']}
 INLINED = {
+    # (against the second schema, which imports only a part of package vfq_s)
+    'alt-import-use': ['%import vfq_s', ['<', W('t'), '/>'], ['<', W('u'), ' nn/>']],
+    'alt-use-before': [['<', W('t'), '/>'], '%import vfq_s', '<ps/>'],
     'import-include': ['%import vfq_a', ['<', W('u'), ' nn/>'], ['<', W('t'), '/>']],
     'import-include-2': ['<ta/>', '%import vfq_b', '<tb>', 'kb 1', '</tb>', ['<', W('t'), ' sa/>']],
 }
@@ -130,9 +155,9 @@ SEQS_Q = [['plain'], ['mutual'], ['mutual-2'], ['import-then-use'], ['use-before
 # every (concrete earlier load, any later load) pair against one schema object
 SEQS_Q += [[a, b] for a in ('c-import-use', 'c-import-b', 'c-bad', 'bad-import') for b in LOADS
            if [a, b] not in SEQS_Q]
-SEQS_Q += [['ovr'], ['ovr-imported'], ['c-import-ab'], ['c-import-ba'], ['import-include'], ['import-include-2'],
+SEQS_Q += [['c-import-a2'], ['c-import-use', 'c-import-a2'], ['c-import-a2', 'c-import-use'], ['ovr'], ['ovr-imported'], ['c-import-ab'], ['c-import-ba'], ['import-include'], ['import-include-2'],
            ['broken-then-use'], ['c-import-broken', 'plain'], ['c-import-broken', 'import-then-use'],
-           ['c-import-use', 'import-include']]
+           ['c-import-use', 'import-include'], ['alt-import-use'], ['alt-use-before'], ['alt-import-use', 'alt-use-before']]
 SEQS_Q += [[a, b] for a in ('c-import-ab', 'c-import-ba')
            for b in ('import-then-use', 'use-before', 'plain', 'fixed-slot', 'between')]
 # ONE ConfigLoader object serving the loads of a sequence (the vocabulary of an earlier load of the same
@@ -228,8 +253,10 @@ class C12(P.TextMixin, Harness):
         import io
         ensure_packages()
         files = self.text_files(unit, inp)
-        schema = ZConfig.loadSchemaFile(io.StringIO(XML))
-        names0 = [schema.gettype(a).getsubtypenames() for a in ('aa', 'ab')]
+        alt = unit['seq'][0].startswith('alt-')
+        schema = ZConfig.loadSchemaFile(io.StringIO(XML2 if alt else XML))
+        absnames = ('ax',) if alt else ('aa', 'ab')
+        names0 = [schema.gettype(a).getsubtypenames() for a in absnames]
         out = []
         loader = None
         if unit.get('same_loader'):
@@ -250,7 +277,7 @@ class C12(P.TextMixin, Harness):
                 except Exception as e:
                     o = ('crash', type(e).__name__)
             out.append(o)
-        names1 = [schema.gettype(a).getsubtypenames() for a in ('aa', 'ab')]
+        names1 = [schema.gettype(a).getsubtypenames() for a in absnames]
         return ('seq', out, names0, names1)
 
     def expect(self, unit, inp, real):
@@ -262,9 +289,11 @@ class C12(P.TextMixin, Harness):
             if g[0] != 'ok':
                 out.append(('reject',))
                 continue
-            r = CF.evaluate(VIEW, g[1], packages=PACKAGES)
+            r = CF.evaluate(VIEW2 if unit['seq'][0].startswith('alt-') else VIEW, g[1], packages=PACKAGES)
             out.append(r if r[0] != 'reject' else ('reject',))
         base = [['ta', 'te'], ['td']]
+        if unit['seq'][0].startswith('alt-'):
+            base = [['tx']]
         return ('seq', out, base, base)
 
     def agree(self, unit, real, exp):
@@ -288,6 +317,13 @@ class C12(P.TextMixin, Harness):
             if bad and all(unit['seq'][i] == 'ovr-imported' and str(inp.get('h_t%d' % i, '')).lower() in ('pa', 'pe')
                            and _j(real[1])[i] == ['reject'] and _j(exp[1])[i][0] == 'ok' for i in bad):
                 return 'F20'
+        # F24: a type name registered as implementer by an EARLIER load's %import is honoured for a same-named
+        # type that a later load imports without 'implements' (consequence of F10's shared abstract types)
+        if unit['check'] == 'outcome' and 'c-import-a2' in unit['seq'] and not unit.get('same_loader'):
+            bad = [i for i, (r, e) in enumerate(zip(_j(real[1]), _j(exp[1]))) if r != e]
+            if bad and all(unit['seq'][i] == 'c-import-a2' and 'c-import-use' in unit['seq'][:i]
+                           and _j(real[1])[i][0] == 'ok' and _j(exp[1])[i] == ['reject'] for i in bad):
+                return 'F24'
         # F10: outcomes all right, only the implementer names of the shared abstract types grew
         if unit['check'] == 'names' and _j(real[2]) == _j(exp[2]) and _j(real[3]) != _j(exp[3]):
             grown = all(set(b) <= set(a) for a, b in zip(real[3], exp[3]))
